@@ -676,7 +676,7 @@ theorem handler_gls (key : Str) (cf ca : Bool) :
   generalize he : Option.bind (List.find? _ s.glossary) _ = entry
   match entry, he with
   | none, _ => exact latexError_step T hw hs _ _ hp
-  | some (_, none), _ => exact Post_crash _ _ _
+  | some (_, none), _ => exact latexError_step T hw hs _ _ hp
   | some (k, some toks), he =>
     dsimp only
     have hst := gloss_lookup T hs.1.gloss he
